@@ -107,7 +107,12 @@ func buildPkg(id string, m mcScenario, variant, layout int) *Scenario {
 		if strings.HasPrefix(r, "deriveCompare") {
 			ret, body = "int", "0"
 		}
-		fmt.Fprintf(&tb, "func %s(a, b *S1) %s { return %s }\n\nvar _ = %s(nil, nil)\n\n", r, ret, body, r)
+		if (len(id)+len(m.Calls))%2 == 1 {
+			// a called identifier that is not a declared func: a function-typed package variable
+			fmt.Fprintf(&tb, "var %s = func(a, b *S1) %s { return %s }\n\nvar _ = %s(nil, nil)\n\n", r, ret, body, r)
+		} else {
+			fmt.Fprintf(&tb, "func %s(a, b *S1) %s { return %s }\n\nvar _ = %s(nil, nil)\n\n", r, ret, body, r)
+		}
 	}
 	sc.Files["p/types.go"] = tb.String()
 	per := map[int]*strings.Builder{}
